@@ -1,4 +1,5 @@
 import TantivyModel.Model.AggSpec
+import TantivyModel.Gen.Agg
 /-
 C14 — implementation-level model of `src/aggregation/intermediate_agg_result.rs` and of the
 segment collectors.
@@ -102,6 +103,17 @@ def collectDoc : (r : Req) → Doc → Inter M r
 /-- segment collection before harvest: documents are collected one after the other -/
 def collect (r : Req) (docs : List Doc) : Inter M r :=
   docs.foldl (fun acc d => merge r acc (collectDoc r d)) (empty r)
+
+/-- request defaults (mirrors: term_agg/mod.rs::TermsAggregationInternal::from_req; the
+numbers are regenerated from the source into `Gen/Agg.lean`) -/
+def TermsP.ofRequest (field : Field) (missing : Option Int) (size segSize minDocCount : Option Nat)
+    (order : Option Order) : TermsP :=
+  let sz := size.getD Gen.AGG_TERMS_DEFAULT_SIZE
+  let seg := segSize.getD (sz * Gen.AGG_TERMS_SEGMENT_SIZE_FACTOR)
+  { field := field, missing := missing, size := sz,
+    segSize := if Gen.AGG_TERMS_SEGMENT_SIZE_AT_LEAST_SIZE = 1 then max seg sz else seg,
+    minDocCount := minDocCount.getD Gen.AGG_TERMS_DEFAULT_MIN_DOC_COUNT,
+    order := order.getD .countDesc }
 
 /-- keep the entries whose key is in `keep` -/
 def KMap.restrict {V : Type} (m : KMap V) (keep : List Int) : KMap V :=
